@@ -246,6 +246,10 @@ def run(ctx):
         inner = (slice(None), slice(1, -1))
         diffs.append(float(np.max(np.abs(out[0][inner] - out[1][inner]))))
     ratios = [diffs[0] / diffs[1] if diffs[1] else float("inf"), diffs[1] / diffs[2] if diffs[2] else float("inf")]
+    # the grid-level entry points (per-z potential splines, reused by gridStep_SplinesUnchanged) against `step` applied by hand to every
+    # local (v, z) plane with the plane's own velocity and potential
+    from harness import gridops
+    ctx.extra["grid_level_blocks_compared"] = gridops.check_grid_level(ctx, rng, "pol")
     ctx.extra["explicit_vs_implicit_differences"] = diffs
     ctx.extra["ratios_on_halving_dt"] = ratios
     ctx.count(("third-order", tuple(diffs)))
